@@ -170,6 +170,7 @@ def c06(facts, tier):
     ents = api_entries(facts)
     rep.floor("R-GUARD(valid)", "public entry points (Evaluator/Encryptor/Decryptor/decoders)", len(ents), 115)
     n_pairs, n_eff = r_guard.check_validity(facts, rep, eng, ents)
+    r_guard.check_key_material(facts, rep)
     rep.floor("R-GUARD(valid)", "(entry, operand) pairs", n_pairs, 100)
     rep.floor("R-GUARD(valid)", "(entry, operand) pairs with a guarded first use", n_eff, 100)
     rep.extra["guard_engine"] = eng.stats
@@ -483,6 +484,7 @@ def c08(facts, tier):
     n = r_contra.run_narrow_shift(facts, rep, None if tier == "thorough" else r_depend.SCOPE_MODULES)
     rep.floor("R-CONTRA(shift)", "functions with left shifts", n, 10)
     r_residue.run(facts, rep, floor=30)
+    r_residue.run_quotient_form(facts, rep)
     return rep
 
 
@@ -645,6 +647,7 @@ def c11(facts, tier):
     n = r_contra.run_sign_loop(facts, rep, None if tier == "thorough" else {"src/util/number_theory.rs", "src/util/galois.rs",
                                                                              "src/evaluator.rs"})
     rep.floor("R-CONTRA(signloop)", "halving loops over signed values", n, 0)
+    r_pair.run_generator(facts, rep)
     n = r_contra.run_onesided_digit(facts, rep, None if tier == "thorough" else {"src/evaluator.rs", "src/util/galois.rs"})
     rep.floor("R-CONTRA(onesided)", "equality tests on NAF digits", n, 0)
     return rep
@@ -678,6 +681,7 @@ def c04(facts, tier):
     n = r_contra.run_sign_loop(facts, rep, None if tier == "thorough" else {"src/util/number_theory.rs", "src/util/galois.rs",
                                                                              "src/evaluator.rs"})
     rep.floor("R-CONTRA(signloop)", "halving loops over signed values", n, 0)
+    r_pair.run_generator(facts, rep)
     n = r_contra.run_onesided_digit(facts, rep, None if tier == "thorough" else {"src/evaluator.rs", "src/util/galois.rs"})
     rep.floor("R-CONTRA(onesided)", "equality tests on NAF digits", n, 0)
     return rep
@@ -777,6 +781,7 @@ def c14(facts, tier):
     n = r_wire.run_use(facts, rep)
     rep.floor("R-WIRE(use)", "readers with let-bound reads", n, 8)
     r_slots.run(facts, rep, floor=0)
+    r_wire.run_width(facts, rep)
     return rep
 
 
@@ -818,6 +823,7 @@ def c10(facts, tier):
     r_resdom.run(facts, rep, {"src/util/rns.rs"}, floor=6)
     r_resdom.run_operand_index(facts, rep, {"src/util/rns.rs"}, floor=10)
     r_shape.run_baselen(facts, rep)
+    r_resdom.run_half(facts, rep, floor=4)
     return rep
 
 
